@@ -29,7 +29,7 @@ import _c18_stub as S  # noqa: E402
 SRC = ["src/pynguin/testcase/export.py", "src/pynguin/assertion/assertion_to_ast.py", "src/pynguin/generator.py",
        "src/pynguin/assertion/assertiontraceobserver.py", "src/pynguin/testcase/testcase.py"]
 SUT_DIR = vlib.VERIF / "corpus" / "C18" / "sut"
-SUT_MODULES = ["numeric", "strings", "containers", "state", "enums", "floats", "rnd", "errors", "shapes.area", "foreign", "exits"]
+SUT_MODULES = ["numeric", "strings", "containers", "state", "enums", "floats", "rnd", "errors", "shapes.area", "foreign", "exits", "kwclash"]
 MODES = ["MUTATION_ANALYSIS", "SIMPLE", "NONE", "CHECKED_MINIMIZING"]
 GEN = str(Path(__file__).resolve().parent / "_c18_gen.py")
 
@@ -139,22 +139,40 @@ def e2e_job(job, repo, scratch):
     except subprocess.TimeoutExpired:
         return {"job": job, "status": "pytest-timeout", "src": src}
     bad = [("pytest:" + s, m) for s, m in L.judge_file(src, fname, pr)]
-    if any(s == "pytest:test-failed:AssertionError:value" for s, _ in bad) and res.get("pre", {}).get("file"):
+    if any(s == "pytest:test-failed:AssertionError:value" for s, _ in bad):
         # is the failing assertion stale because statement minimisation (which runs after assertion
         # generation) removed a state-changing statement?  Only a verified cause gets the narrow class.
+        stale, why = {}, ""
         try:
             pre_src = Path(res["pre"]["file"]).read_text()
             pre_pr = L.run_pytest([fname], str(out / "pre"), [str(SUT_DIR)], timeout=300)
             stale = L.stale_after_minimisation(src, pr, pre_src, pre_pr, fname)
-        except Exception:  # noqa: BLE001
-            stale = {}
+        except Exception as e:  # noqa: BLE001
+            why = f"snapshot analysis failed: {type(e).__name__}: {e}"
+        n_value = sum(s_ == "pytest:test-failed:AssertionError:value" for s_, _ in bad)
+        if len(stale) < n_value:
+            # second opinion: the same job generated again with statement minimisation switched off
+            # (generation is reproducible per seed for these modules); its export plays the snapshot's role
+            try:
+                a2 = dict(a, minimization="NONE", out=str(out / "nomin"))
+                (out / "nomin").mkdir(exist_ok=True)
+                r2 = subprocess.run([sys.executable, GEN, json.dumps(a2)], capture_output=True, text=True, timeout=400, env=env)
+                l2 = [ln for ln in r2.stdout.splitlines() if ln.startswith("RESULT ")]
+                f2 = json.loads(l2[-1][7:])["file"] if l2 else None
+                if f2:
+                    src2 = Path(f2).read_text()
+                    pr2 = L.run_pytest([fname], str(out / "nomin"), [str(SUT_DIR)], timeout=300)
+                    for k_, v_ in L.stale_after_minimisation(src, pr, src2, pr2, fname).items():
+                        stale.setdefault(k_, v_ + " (compared with a generation without statement minimisation)")
+            except Exception as e:  # noqa: BLE001
+                why += f" second generation failed: {type(e).__name__}: {e}"
         new_bad = []
         for s, m in bad:
             fn_ = next((k for k in stale if f"::{k} reported" in m), None)
             if s == "pytest:test-failed:AssertionError:value" and fn_ is not None:
                 new_bad.append(("pytest:test-failed:AssertionError:stale-after-minimisation", m + " || " + stale[fn_]))
             else:
-                new_bad.append((s, m))
+                new_bad.append((s, m + (" || cause analysis: " + why if why and s.endswith(":value") else "")))
         bad = new_bad
     for where, name, kind in L.static_unbound(src):
         bad.append((f"unbound-name:{kind}", f"{fname}::{where} uses `{name}`, which nothing in the file binds"))
